@@ -31,8 +31,8 @@ RULE = (
     "single operations from every small pre-state: lists of length 0..4 x slice start/stop in "
     "{None,-6..6} x step in {None,-3..3 (0 included as the ValueError case)} x assigned values of "
     "length 0..3 (list / iterator / the collection itself / non-iterable) for slice assignment, "
-    "deletion and read (quick: seeded sample of this grid plus a fixed boundary set; thorough: the "
-    "whole grid); every int-index operation with index -6..6; all set operations on subsets of "
+    "deletion and read (41160 points; quick: seeded sample of 1300 of them plus a fixed boundary set of "
+    "~1000 cases incl. the witnesses of the repaired defect; thorough: the whole grid); every int-index operation with index -6..6; all set operations on subsets of "
     "{0,1,2} with set/list/self/non-iterable arguments; all dict operations on 4 pre-states for both "
     "a KeyFuncDict and a dict subclass with @collection.appender; plus random histories of 2..7 "
     "operations on larger collections. non-trivial = the case contains an operation other than a read"
@@ -344,7 +344,7 @@ def gen_cases(rng, tier):
 
     grid = list(_slice_grid())
     if tier != "thorough":
-        grid = rng.sample(grid, 1400)
+        grid = rng.sample(grid, 1300)  # keeps the quick tier within 12 shards of 400 cases
     for init, op, fam in grid:
         add(0, init, op, fam)
     for init, op, fam in _boundary_slices():
